@@ -231,6 +231,15 @@ func diffModule(id int, m *wgen.Module, it item, ops func(int) string) (res comm
 					fail("global", fmt.Sprintf("%s: interpreter %#x compiler %#x", g, va, vb))
 				}
 			}
+			// tables (size and null-map of the writable ones)
+			if ta, tb := a.mod.ExportedFunction("tstate"), b.mod.ExportedFunction("tstate"); ta != nil && tb != nil {
+				xa, e1 := ta.Call(ctx)
+				xb, e2 := tb.Call(ctx)
+				if e1 != nil || e2 != nil || xa[0] != xb[0] {
+					fail("tables", fmt.Sprintf("table sizes / null-maps differ: interpreter %#x (%v) compiler %#x (%v)", xa, e1, xb, e2))
+					return res
+				}
+			}
 			// memory
 			ma, mb := a.mod.Memory(), b.mod.Memory()
 			if ma.Size() != mb.Size() {
